@@ -20,6 +20,18 @@ type requestStream struct {
 	reader          *bufio.Reader
 	totalBytesRead  int
 	chunkLeft       int
+	chunkedEOF      bool
+}
+
+// fullyRead reports whether the whole framed body has been consumed, so that
+// the underlying reader is positioned at the start of the next message.
+func (rs *requestStream) fullyRead() bool {
+	contentLength := rs.header.ContentLength()
+	if contentLength >= 0 {
+		return rs.totalBytesRead >= contentLength ||
+			(rs.prefetchedBytes != nil && int(rs.prefetchedBytes.Size()) >= contentLength)
+	}
+	return rs.chunkedEOF
 }
 
 func (rs *requestStream) Read(p []byte) (int, error) {
@@ -28,6 +40,9 @@ func (rs *requestStream) Read(p []byte) (int, error) {
 		err error
 	)
 	if rs.header.ContentLength() == -1 {
+		if rs.chunkedEOF {
+			return 0, io.EOF
+		}
 		if rs.chunkLeft == 0 {
 			chunkSize, err := parseChunkSize(rs.reader)
 			if err != nil {
@@ -38,6 +53,7 @@ func (rs *requestStream) Read(p []byte) (int, error) {
 				if err != nil && err != io.EOF {
 					return 0, err
 				}
+				rs.chunkedEOF = true
 				return 0, io.EOF
 			}
 			rs.chunkLeft = chunkSize
@@ -98,6 +114,7 @@ func releaseRequestStream(rs *requestStream) {
 	rs.prefetchedBytes = nil
 	rs.totalBytesRead = 0
 	rs.chunkLeft = 0
+	rs.chunkedEOF = false
 	rs.reader = nil
 	rs.header = nil
 	requestStreamPool.Put(rs)
